@@ -155,6 +155,13 @@ fn all_tests(f: &mut Failures) {
     ub_string(&trace.ub)
   );
   println!("AllTests: stats {stats:?}");
+  if stats.object_eq > 0 {
+    println!(
+      "  note: {} `==` comparisons on heap objects decided by reference identity ({} of them \
+       representation dependent); needed by std.map's physical-equality shortcuts",
+      stats.object_eq, stats.ambiguous_object_eq
+    );
+  }
   if trace.ub.overflow {
     println!(
       "  note: ub.overflow is set because the corpus contains wrapping arithmetic on purpose \
@@ -184,8 +191,70 @@ fn all_tests(f: &mut Failures) {
   }
 }
 
+/// every zero-parameter static function `run` of every class in tests/*.sam must be interpretable
+/// (no `Harness` ending): a sweep for unsupported constructs beyond what AllTests reaches
+fn corpus_sweep(f: &mut Failures) {
+  use samlang_ast::source::Toplevel;
+  let mut heap = Heap::new();
+  let project = front::repo_project();
+  let checked = front::check_project(&mut heap, &project);
+  if checked.errors.has_errors() {
+    f.fail("corpus sweep", "repo project does not type check".to_string());
+    return;
+  }
+  let limits = Limits { max_steps: 2_000_000_000, max_depth: 100_000, max_lines: 1_000_000 };
+  let mut names: Vec<&String> = project.modules.iter().map(|(n, _)| n).collect();
+  names.sort();
+  let (mut ran, mut bad) = (0, 0);
+  let t0 = Instant::now();
+  for name in names {
+    if !name.starts_with("tests.") || name == "tests.AllTests" {
+      continue;
+    }
+    let m = front::mod_ref(&mut heap, name);
+    let Some(module) = checked.checked.get(&m) else { continue };
+    for toplevel in &module.toplevels {
+      let Toplevel::Class(c) = toplevel else { continue };
+      for member in &c.members.members {
+        let d = &member.decl;
+        if d.is_method
+          || d.name.name.as_str(&heap) != "run"
+          || !d.parameters.parameters.is_empty()
+        {
+          continue;
+        }
+        let class = c.name.name.as_str(&heap).to_string();
+        let (t, _, stats) =
+          refint::run_function(&heap, &checked.checked, m, &class, "run", vec![], &limits);
+        ran += 1;
+        match &t.ending {
+          Ending::Return => {}
+          Ending::Harness(msg) => {
+            bad += 1;
+            f.fail("corpus sweep", format!("{name} {class}.run: Harness({msg})"));
+          }
+          other => println!(
+            "  note: {name} {class}.run ends with {other:?} after {} lines (ub: {}, steps {})",
+            t.lines.len(),
+            ub_string(&t.ub),
+            stats.steps
+          ),
+        }
+      }
+    }
+  }
+  if bad == 0 {
+    println!(
+      "ok   [corpus sweep] {ran} `run` functions of tests/*.sam interpreted without harness \
+       failure ({:.2}s)",
+      t0.elapsed().as_secs_f64()
+    );
+  }
+}
+
 fn run_function_checks(f: &mut Failures) {
   let src = r#"
+import { Pair } from std.tuples;
 class Calc {
   function add(a: int, b: int): int = a + b
   function greet(name: Str, loud: bool): Str = if loud { "HELLO " :: name } else { "hello " :: name }
@@ -291,40 +360,99 @@ fn unit_checks(f: &mut Failures) {
   println!("ok   [unit checks]");
 }
 
+/// `calib_ref run <file.sam>`: interpret one file (module `Test`, std available) and print the
+/// trace; a debugging aid, not part of the calibration
+fn run_file(path: &str) {
+  let src = std::fs::read_to_string(path).expect("readable source file");
+  let limits = Limits { max_steps: u64::MAX, max_depth: 100_000, max_lines: 1_000_000 };
+  let t0 = Instant::now();
+  match run_src(&src, &limits) {
+    Ok((trace, stats)) => {
+      print!("{}", trace.stdout());
+      println!("-- ending: {:?}", trace.ending);
+      println!("-- ub: {}", ub_string(&trace.ub));
+      println!("-- {stats:?}");
+      println!("-- {:.3}s", t0.elapsed().as_secs_f64());
+    }
+    Err(e) => {
+      println!("{e}");
+      std::process::exit(2);
+    }
+  }
+}
+
 fn main() {
+  let argv: Vec<String> = std::env::args().collect();
+  if argv.len() == 3 && argv[1] == "run" {
+    run_file(&argv[2]);
+    return;
+  }
   let mut f = Failures(Vec::new());
   let t0 = Instant::now();
 
   all_tests(&mut f);
+  corpus_sweep(&mut f);
   unit_checks(&mut f);
   run_function_checks(&mut f);
 
   let d = Limits::default();
 
+  // NOTE: spec 6.13.1 allows `let x = 1; let x = x + 1;` (rebinding / shadowing), but the real
+  // type checker rejects every reuse of a visible name ("Name `x` collides with a previously
+  // defined name"), so shadowing cannot occur in a checked program.  The interpreter implements
+  // it anyway (newest binding wins); what can be calibrated is scoping: names are reusable in
+  // sibling scopes (blocks, match arms, lambdas) and do not leak out of them.
+  match run_src(
+    "class Main { function main(): unit = { let x = 1; let x = x + 1; Process.println(Str.fromInt(x)); } }",
+    &d,
+  ) {
+    Err(e) if e.contains("collides") => {
+      println!("ok   [shadowing is rejected by the checker (spec 6.13.1 disagrees)]")
+    }
+    Err(e) => f.fail("shadowing", e),
+    Ok((t, _)) => {
+      // the checker accepts it (after a fix): then the spec semantics must hold
+      if t.lines != vec!["2".to_string()] || t.ending != Ending::Return {
+        f.fail("shadowing", format!("{t:?}"));
+      } else {
+        println!("ok   [shadowing]");
+      }
+    }
+  }
   check_case(
     &mut f,
     Expect {
-      name: "shadowing",
+      name: "scoping",
       src: r#"
+import { Option } from std.option;
 class Main {
+  function pick(o: Option<int>, p: Option<int>): int = {
+    let a = match o { Some(v) -> v, None -> 0 };
+    let b = match p { Some(v) -> v * 10, None -> 0 };
+    a + b
+  }
   function main(): unit = {
     let x = 1;
-    let x = x + 1;
-    Process.println(Str.fromInt(x));
     let y = {
-      let x = x * 10;
-      Process.println(Str.fromInt(x));
-      x + 1
+      let t = x * 10;
+      Process.println(Str.fromInt(t));
+      t + 1
     };
-    Process.println(Str.fromInt(x));
-    Process.println(Str.fromInt(y));
-    let f = (x: int) -> x + 100;
-    Process.println(Str.fromInt(f(x)));
-    Process.println(Str.fromInt(x));
+    let z = {
+      let t = y * 10;
+      Process.println(Str.fromInt(t));
+      t + 1
+    };
+    Process.println(Str.fromInt(x + y + z));
+    let f = (t: int) -> { let u = t + x; u * 2 };
+    let g = (t: int) -> { let u = t - x; u * 3 };
+    Process.println(Str.fromInt(f(1) + g(1)));
+    Process.println(Str.fromInt(Main.pick(Option.Some(3), Option.Some(4))));
+    if x == 1 { let w = 5; Process.println(Str.fromInt(w)) } else { let w = 6; Process.println(Str.fromInt(w)) }
   }
 }
 "#,
-      lines: &["2", "20", "2", "21", "102", "2"],
+      lines: &["10", "110", "123", "4", "43", "5"],
       ending: Ending::Return,
       ub: no_ub(),
       limits: d,
@@ -346,9 +474,9 @@ class Main {
   function main(): unit = {
     let a = 10;
     let add = Main.adder(a);
-    let a = 1000;
+    let big = 1000;
     Process.println(Str.fromInt(add(1)));
-    Process.println(Str.fromInt(a));
+    Process.println(Str.fromInt(big));
     let both = Main.compose(add, (x) -> x * 2);
     Process.println(Str.fromInt(both(5)));
     let c = Counter.make();
@@ -375,6 +503,7 @@ class Main {
       name: "or-pattern binds first alternative",
       src: r#"
 import { Option } from std.option;
+import { Pair } from std.tuples;
 class R(A(int), B(int), C(int, int)) {}
 class Main {
   function pick(p: Pair<Option<int>, Option<int>>): int =
@@ -458,9 +587,9 @@ class P(val x: int, val y: int, val name: Str) {
 class Main {
   function main(): unit = {
     let p = P.init(1, 2, "pt").swap();
-    let { y, x as first } = p;
+    let { y, x as first, name as _ } = p;
     Process.println(Str.fromInt(first) :: "," :: Str.fromInt(y) :: "," :: p.name);
-    let { name as n } = p;
+    let { name as n, x as _, y as _ } = p;
     Process.println(n);
     let t = (1, "two", (3, true));
     let (a, b, (c, d)) = t;
@@ -493,10 +622,10 @@ class Main {
     Process.println(Str.fromInt(Main.get(Option.Some(Option.None<int>()))));
     Process.println(Str.fromInt(Main.get(Option.None())));
     let x = 5;
-    let r = if let Some(x) = Option.Some(x * 2) { x } else { x };
+    let r = if let Some(q) = Option.Some(x * 2) { q } else { x };
     Process.println(Str.fromInt(r));
     Process.println(Str.fromInt(x));
-    if let (1, y) = (1, 9) { Process.println(Str.fromInt(y)) } else { Process.println("no") }
+    if let (Some(y), _) = (Option.Some(9), 1) { Process.println(Str.fromInt(y)) } else { Process.println("no") }
   }
 }
 "#,
@@ -918,26 +1047,66 @@ class Main {
     },
   );
 
-  check_case(
-    &mut f,
-    Expect {
-      name: "== on objects is inconclusive",
-      src: r#"
+  // `==` on heap values: reference identity by default (std.map / AllTests need it), counted in
+  // the statistics; inconclusive ending when switched off
+  let obj_eq_src = r#"
 class B(val n: int) {}
+class E(X, Y, Z(int)) {}
 class Main {
+  function yn(b: bool): Str = if b { "y" } else { "n" }
   function main(): unit = {
     let b = B.init(1);
+    let c = b;
     Process.println("start");
-    Process.println(if b == b { "same" } else { "different" });
+    Process.println(Main.yn(b == c) :: Main.yn(b != c) :: Main.yn(b == B.init(1)));
+    Process.println(Main.yn(E.X() == E.X()) :: Main.yn(E.X() == E.Y()) :: Main.yn(E.Z(1) == E.X()));
+    let z = E.Z(1);
+    Process.println(Main.yn(z == z) :: Main.yn(z == E.Z(1)));
+    let fn1 = (x: int) -> x;
+    Process.println(Main.yn(fn1 == fn1));
+    let v = Vec.of(1);
+    Process.println(Main.yn(v == v) :: Main.yn(v == Vec.of(1)));
   }
 }
-"#,
-      lines: &["start"],
-      ending: Ending::Harness("== on non-primitive".to_string()),
+"#;
+  if let Some(stats) = check_case(
+    &mut f,
+    Expect {
+      name: "== on objects: reference identity",
+      src: obj_eq_src,
+      lines: &["start", "ynn", "ynn", "yn", "y", "yn"],
+      ending: Ending::Return,
       ub: no_ub(),
       limits: d,
     },
-  );
+  ) {
+    if stats.object_eq != 11 || stats.ambiguous_object_eq != 3 {
+      f.fail(
+        "== on objects: reference identity",
+        format!("object_eq={} ambiguous_object_eq={}", stats.object_eq, stats.ambiguous_object_eq),
+      );
+    }
+  }
+  {
+    let mut heap = Heap::new();
+    let project = Project::single("Test", obj_eq_src).with_std();
+    let checked = front::check_project(&mut heap, &project);
+    let entry = front::mod_ref(&mut heap, "Test");
+    let (t, _) = refint::run_with_options(
+      &heap,
+      &checked.checked,
+      entry,
+      &d,
+      refint::Options { object_identity_eq: false },
+    );
+    if t.lines == vec!["start".to_string()]
+      && t.ending == Ending::Harness("== on non-primitive".to_string())
+    {
+      println!("ok   [== on objects: inconclusive when identity is switched off]");
+    } else {
+      f.fail("== on objects off", format!("{t:?}"));
+    }
+  }
 
   // self tail recursion: 1,000,000 iterations in static functions, methods, through if / match /
   // && and with a depth limit far below the iteration count
@@ -966,7 +1135,7 @@ class Main {
   }
 }
 "#,
-      lines: &["2999997", "all", "1000000", "1000000"],
+      lines: &["2999998", "all", "1000000", "1000000"],
       ending: Ending::Return,
       ub: no_ub(),
       limits: shallow,
